@@ -332,6 +332,11 @@ def run(ctx):
         else:
             singles = [c for c in cases if c.get('sched') is not None and not c['script'].get('mq_raises')]
             groups = [[dict(rng.choice(singles), sched=[0] * 6) for _ in range(rng.choice([2, 2, 3]))] for _ in range(60 if not ctx.thorough else 600)] if singles else []
+            # what an earlier run left behind on the shared object (metric facets, flags) meets a run that ends before Filter.init is reached: it emits nothing
+            fac = [c for c in singles if c.get('hb_facets')]
+            early = [c for c in singles if c['script'].get('ctor_raises') or c['script'].get('init_pre', 'ret') in ('raise', 'interrupt', 'exit', 'exit:other', 'exit:propagate', 'exit:base')]
+            if fac and early:
+                for g in groups[::3]: g[0] = dict(rng.choice(fac), sched=[0] * 6); g[-1] = dict(rng.choice(early), sched=[0] * 6)
         nmulti = 0
         for g in groups:
             obs = run_multi(g)
